@@ -706,7 +706,8 @@ def _run_cli(scn: Dict[str, Any], cfg: Dict[str, Any], loop: VLoop, env: Env, br
     """The worker as the command line builds it: WorkerArgs.from_cli(argv) -> taskiq.cli.worker.run.start_listen(args).
 
     Only the process-level services are replaced: the event loop factory (virtual-time loop), signal registration (handlers are
-    captured; 'stop' delivers SIGINT/SIGTERM to the captured handler), the import of broker/receiver by name, the thread pool.
+    captured; 'stop' delivers SIGINT/SIGTERM to the captured handler) and the thread pool; broker and receiver class are
+    found by the real import_object() in a module object registered as sys.modules["verifmod"].
     """
     import signal as real_signal
     import types
@@ -755,14 +756,15 @@ def _run_cli(scn: Dict[str, Any], cfg: Dict[str, Any], loop: VLoop, env: Env, br
 
     fake_signal = types.SimpleNamespace(signal=lambda n, h: handlers.__setitem__(n, h), SIGINT=real_signal.SIGINT,
                                         SIGTERM=real_signal.SIGTERM, SIGHUP=real_signal.SIGHUP)
-    objects = {"verifmod:broker": broker, "verifmod:Receiver": receiver_cls}
-    saved = {k: getattr(cli_run, k) for k in ("signal", "import_object", "import_tasks", "ThreadPoolExecutor")}
+    mod = types.ModuleType("verifmod")       # found by the real import_object() through sys.modules
+    mod.broker = broker  # type: ignore[attr-defined]
+    mod.Receiver = receiver_cls  # type: ignore[attr-defined]
+    sys.modules["verifmod"] = mod
+    saved = {k: getattr(cli_run, k) for k in ("signal", "ThreadPoolExecutor")}
     saved_new_loop = asyncio.new_event_loop
     loop.run_until_complete = run_until_complete  # type: ignore[method-assign]
     try:
         cli_run.signal = fake_signal  # type: ignore[assignment]
-        cli_run.import_object = lambda path: objects[path]  # type: ignore[assignment]
-        cli_run.import_tasks = lambda *a, **k: None  # type: ignore[assignment]
         cli_run.ThreadPoolExecutor = lambda max_workers=None: InlineExecutor()  # type: ignore[assignment,misc]
         asyncio.new_event_loop = lambda: loop  # type: ignore[assignment]
         try:
@@ -774,6 +776,7 @@ def _run_cli(scn: Dict[str, Any], cfg: Dict[str, Any], loop: VLoop, env: Env, br
             setattr(cli_run, k, v)
         asyncio.new_event_loop = saved_new_loop
         asyncio.set_event_loop(None)
+        sys.modules.pop("verifmod", None)
     if not env.closed:
         # start_listen failed before the worker ran
         env.rec("eot", x=0, y=0)
